@@ -67,6 +67,10 @@ def classify(seg):
         res = e.get("res", {})
         if e.get("panic"):
             sig["class"] = "panic"
+        elif e.get("how") == "hole" and e.get("flip") == 2 and not res.get("err"):
+            # the first segment kept nothing but its leading crc record: running CRC 0, the
+            # chain check against the next segment is skipped
+            sig["class"] = "crc-chain-vacuous-after-first-crc"
         elif e.get("how") == "flip" and e.get("where") in ("type", "typetag"):
             # the record type is outside the CRC: a flipped type byte re-types an intact record
             sig["class"] = "record-type-unprotected"
@@ -105,6 +109,7 @@ def drive(ctx, zr, name, args, parts, stats, samples, timeout=2400):
             continue
         for k in ("histories", "sim_histories", "calls", "cuts", "restarts", "images", "repaired", "big_entries"):
             stats[k] = stats.get(k, 0) + summ.get(k, 0)
+        stats["max_entry_bytes"] = max(stats.get("max_entry_bytes", 0), summ.get("max_entry_bytes", 0))
         for k in ("by_kind", "by_tail", "by_outcome"):
             for kk, v in summ.get(k, {}).items():
                 stats[k][kk] = stats[k].get(kk, 0) + v
@@ -235,6 +240,17 @@ def run(ctx):
         # entries larger than the 1 MB encode buffers (sampled offsets)
         drive(ctx, zr, "big", ["-seed", seed, "-random", "4", "-len", "7", "-big", "-maximg", "10", "-imgevery", "3"],
               4, stats, samples)
+    # entries just below / at / above the size thresholds the wal code knows (4 KB page and 128 KB
+    # watermark of the page writer, 1 MB marshal buffers, 16 MB, the 64 MB default segment, just
+    # below the decoder's 100 MB frame bound), default segment size, clean restart, process-crash
+    # images opened at several snapshots
+    if q:
+        drive(ctx, zr, "sizes", ["-seed", seed, "-sizes", "1"], 1, stats, samples)
+    else:
+        drive(ctx, zr, "sizes", ["-seed", seed, "-sizes", "6", "-sizevariants", "3"], 3, stats, samples)
+    # isolate stage of known finding C05-crc-chain-vacuous-after-first-crc
+    drive(ctx, zr, "isolate-hole0", ["-seed", seed, "-random", "6" if q else "24", "-len", "10", "-hole0", "-imgevery", "3"],
+          2 if q else 4, stats, samples)
     # isolate stage of known finding C05-record-type-unprotected: flips of the record-type
     # bytes on purpose; any failure here must carry exactly that signature
     drive(ctx, zr, "isolate-typeflips", ["-seed", seed, "-random", "2" if q else "12", "-len", "6", "-typeflips",
@@ -294,7 +310,7 @@ def run(ctx):
         model_runs=runs,
         histories=stats.get("histories", 0), tlc_generated_histories=stats.get("sim_histories", 0),
         calls=stats.get("calls", 0), segment_rolls=stats.get("cuts", 0), clean_restarts=stats.get("restarts", 0),
-        entries_over_1MB=stats.get("big_entries", 0),
+        entries_over_1MB=stats.get("big_entries", 0), largest_entry_bytes=stats.get("max_entry_bytes", 0),
         events_validated=stats["events"], mismatching_lines=stats["mismatches"],
         fault_enumeration=dict(
             evaluations=stats["images_validated"],
@@ -325,5 +341,7 @@ def run(ctx):
         "returned again; histories are raft-legal (no rewrite at or below commit / marker)",
         "bit flips of the two bytes holding the record type are a recorded finding (isolate stage); flips "
         "elsewhere must give an error, a cut at the flipped record, or have no effect",
+        "entries stay below the decoder's own frame bound (100 MB): wal.Save accepts a larger entry but the "
+        "reader treats its length field as garbage - outside the corpus",
         "segment purge (fileutil.PurgeFile) and concurrent use of one WAL are not modelled",
     ])
